@@ -20,7 +20,7 @@ Import ListNotations.
 Open Scope N_scope.
 
 (** [is_universe] carries, with every key, its chunk index [chunk_index cfg k] computed once at
-    init (the hash is the expensive part of the observers); see [ImmunityCache_proofs.probe_get]. *)
+    init (the hash is the expensive part of the observers); see [ImmunityComp_proofs.probe_get] and [step_universe_ok]. *)
 Record istate : Type := mkIS { is_kind : N; is_universe : list (bytes * nat); is_cache : cache }.
 
 Definition probe (s : cache) (ki : bytes * nat) : option item :=
